@@ -32,6 +32,8 @@ def lib_args(kind, key, rng=None):
         l = sorted(fs) if _sortable(fs) else list(fs)
         if rng is not None:
             rng.shuffle(l)
+            if rng.random() < 0.5:
+                l = [fresh(x) for x in l]  # equal but not identical objects: "is" comparisons must not matter
         return tuple(l)
 
     if kind == "H":
@@ -41,6 +43,26 @@ def lib_args(kind, key, rng=None):
     if kind == "T":
         return (tup(key[1]), key[0])
     return (tup(key[0]), key[1])
+
+
+def fresh(x):
+    """an object equal to x but (where CPython allows) not identical to it"""
+    try:
+        import numpy as np
+
+        if isinstance(x, np.integer):
+            return type(x)(int(x))
+    except Exception:
+        pass
+    if isinstance(x, bool):
+        return x
+    if isinstance(x, int):
+        return int(str(x))
+    if isinstance(x, str):
+        return "".join(list(x))
+    if isinstance(x, float):
+        return float(repr(x))
+    return x
 
 
 def _sortable(fs):
